@@ -92,6 +92,33 @@ def run(ctx):
     small = [t for t in small if gen_br.tree_size(t) <= 120] + boundary_trees(r) + tie_trees(r, ctx.scale(60, 600))
     cases = ["ser " + gen.tt(t) for t in small]
     corr_par.correspond(ctx, "br", cases, name="ser_br", nontrivial=lambda c, a, b: False)
+    # 1b. the size-limited serializer (back-reference half of C29, Props/C29br.v): every limit
+    #     0..len+1 of a few small trees, model vs implementation, and against the statement
+    ctx.proofs("Props/C29br.v", extra_targets=["Pins/C29br.vo"])
+    lim_trees = [t for t in small if gen_br.tree_size(t) <= 25][:ctx.scale(25, 300)]
+    full = vlib.run_impl("br", ["serhex " + gen.tt(t) for t in lim_trees])
+    lcases, expect = [], []
+    for t, o in zip(lim_trees, full):
+        if not (o or "").startswith("ok"):
+            continue
+        h = o.split()[1]
+        n = 0 if h == "-" else len(h) // 2
+        for lim in range(0, n + 2):
+            lcases.append("serl %d %s" % (lim, gen.tt(t)))
+            expect.append((n, lim, h))
+    corr_par.correspond(ctx, "br", lcases, name="ser_br_limit", nontrivial=lambda c, a, b: False)
+    louts = vlib.run_impl("br", lcases)
+    for c, o, (n, lim, h) in zip(lcases, louts, expect):
+        ctx.evaluations += 1
+        o = o or "none"
+        if lim < n:
+            ok = o == "err OutOfMemory"
+        else:
+            ok = o.startswith("ok ") and (n > 48 or o.split()[1] == h)
+        ctx.histogram("limit", "below" if lim < n else "at-or-above")
+        if not ok:
+            ctx.violation("node_to_bytes_backrefs_limit: limit %d, unlimited length %d: %s" % (lim, n, o[:120]),
+                          {"case": c, "family": "br", "impl": o})
     # 2. the property itself on the implementation: larger trees
     trees = small + gen_trees(ctx, ctx.scale(2500, 60000), 80)
     lines = ["rt " + gen.tt(t) for t in trees]
